@@ -75,6 +75,8 @@ pub struct Plan {
     pub max_workers: usize,
     // What a worker death (abort/stack overflow/OOM) at a case means for this property.
     pub death_is_violation: bool,
+    // if non-empty, only deaths in these sections are violations
+    pub death_sections: Vec<&'static str>,
     pub explanation: String,
 }
 
@@ -89,6 +91,7 @@ impl Plan {
             case_timeout_s: 20,
             max_workers: 16,
             death_is_violation: false,
+            death_sections: vec![],
             explanation: String::new(),
         }
     }
@@ -581,7 +584,7 @@ fn finish(prop: &'static dyn Prop, tier: Tier, seed: u64, plan: &Plan, mut a: Ag
         let sname = plan.sections.get(si).map(|s| s.name).unwrap_or("?");
         let desc = if g >= 0 { prop.describe(tier, seed, sname, idx) } else { String::new() };
         *a.counts.entry("worker-deaths".into()).or_insert(0) += 1;
-        if plan.death_is_violation && g >= 0 {
+        if plan.death_is_violation && g >= 0 && (plan.death_sections.is_empty() || plan.death_sections.contains(&sname)) {
             let v = Json::obj()
                 .set("t", Json::s("V"))
                 .set("key", Json::s("worker-death"))
@@ -616,8 +619,13 @@ fn finish(prop: &'static dyn Prop, tier: Tier, seed: u64, plan: &Plan, mut a: Ag
         let is_known = known.iter().any(|k| k.str_of("status") == "open" && k.str_of("key") == key);
         let what = v.str_of("what");
         if is_known {
-            let e = known_seen.entry(key).or_insert((0, what));
+            let e = known_seen.entry(key.clone()).or_insert((0, what.clone()));
             e.0 += 1;
+            if e.0 <= 3 && std::env::var("GV_SHOW_KNOWN").is_ok() {
+                let path = format!("{replay_dir}/{id}-KNOWN-{}-{}.json", sanitize(&key), e.0);
+                let rj = Json::obj().set("property", Json::s(id)).set("tier", Json::s(tier.name())).set("seed", Json::Int(seed as i64)).set("section", Json::s(&v.str_of("sec"))).set("index", Json::Int(v.i64_of("idx"))).set("key", Json::s(&key)).set("what", Json::s(&what)).set("detail", v.get("detail").cloned().unwrap_or(Json::Null));
+                let _ = fs::write(&path, rj.pretty());
+            }
         } else {
             let e = new_keys.entry(key.clone()).or_insert((0, String::new()));
             e.0 += 1;
